@@ -71,7 +71,8 @@ func classReps(class string) []any {
 	case "float32":
 		return []any{float32(0), float32(1.5), float32(-2.75), float32(math.MaxFloat32), float32(0.1), float32(3.14), float32(math.SmallestNonzeroFloat32)}
 	case "float64":
-		return []any{0.0, 1.5, -2.75, 3.9999999, 1e300, -1e300}
+		// (values a hair away from a whole number: the conversion truncates, it does not round)
+		return []any{0.0, 1.5, -2.75, 3.9999999, 1e300, -1e300, 56.99999999999999, math.Nextafter(3, 0), -41.9999999999, 0.9999999999, 0.57 * 100}
 	case "nan":
 		return []any{math.NaN()}
 	case "inf":
@@ -117,7 +118,7 @@ func classReps(class string) []any {
 		return []any{myInt(5), time.Duration(1500), reflect.Kind(3)}
 	case "namedstr":
 		// (json.Number is a named string type: a number only to encoding/json)
-		return []any{myStr("s"), json.Number("12"), json.Number(""), json.Number("abc"), json.Number("1.5"), json.Number("1e400")}
+		return []any{myStr("s"), flyt.Action("next"), flyt.DefaultAction, json.Number("12"), json.Number(""), json.Number("abc"), json.Number("1.5"), json.Number("1e400")}
 	case "errresult":
 		return []any{errors.New("carried error")}
 	case "resultval":
@@ -502,6 +503,11 @@ type other struct {
 	Flag bool   `json:"flag"`
 }
 
+type rawHolder struct {
+	ID   int             `json:"id"`
+	Name json.RawMessage `json:"name"`
+}
+
 type order struct {
 	Billing  *tagged `json:"billing"`
 	Shipping *tagged `json:"shipping"`
@@ -547,6 +553,9 @@ var bindValues = []bindValue{
 	{"sharedinslice", func() any { a := &tagged{2, "x"}; return []*tagged{a, a, a} }},
 	// ... and one that really contains itself (encoding/json reports an error)
 	{"cyclic", func() any { m := map[string]any{"id": 1}; m["self"] = m; return m }},
+	// characters encoding/json escapes (<, >, &, U+2028): the bytes a json.RawMessage destination receives are json.Marshal's
+	{"htmlmap", func() any { return map[string]any{"id": 6, "name": "<b>Tom & Jerry</b>", "k<&>": "\u2028"} }},
+	{"htmlstring", func() any { return "<a href=\"x\">&</a>" }},
 	// typed nils are non-nil values
 	{"nilptr", func() any { return (*tagged)(nil) }},
 	{"nilmap", func() any { return map[string]any(nil) }},
@@ -573,6 +582,10 @@ var bindOtherDests = []func() any{
 	func() any { return &tagged{ID: 77, Name: "keep"} },
 	func() any { return &map[string]any{"keep": true} },
 	func() any { return &untagged{ID: 9, Name: "keep", Tags: []string{"x", "y"}} },
+	// destinations that see the encoded bytes themselves
+	func() any { return &json.RawMessage{} },
+	func() any { return &rawHolder{} },
+	func() any { return &map[string]json.RawMessage{} },
 }
 
 // runBindAlias: the store holds a reference (map, slice, pointer); the caller binds it, changes the referenced value in
@@ -647,6 +660,66 @@ func runBindAlias(bv bindValue, destIdx int, carrier string) (ev Event, applicab
 		ev["desteq"] = reflect.DeepEqual(reflect.ValueOf(dest).Elem().Interface(), reflect.ValueOf(refDest).Elem().Interface())
 	}()
 	return ev, applicable || ev["panicked"] == true
+}
+
+// runBindRace: one goroutine keeps setting and deleting a key, the caller binds it again and again: every Bind either binds
+// the value or reports an error
+func runBindRace(dest string) Event {
+	s := flyt.NewSharedStore()
+	stop := make(chan struct{})
+	var wg sync.WaitGroup
+	wg.Add(1)
+	go func() {
+		defer wg.Done()
+		for {
+			select {
+			case <-stop:
+				return
+			default:
+			}
+			switch dest {
+			case "struct":
+				s.Set("k", map[string]any{"id": 7, "name": "seven"})
+			default:
+				s.Set("k", 7)
+			}
+			s.Delete("k")
+		}
+	}()
+	bad, iters, panicked := 0, 0, false
+	func() {
+		defer func() {
+			if recover() != nil {
+				panicked = true
+			}
+		}()
+		deadline := time.Now().Add(120 * time.Millisecond)
+		for iters = 0; iters < 400000 && time.Now().Before(deadline); iters++ {
+			switch dest {
+			case "int":
+				d := 0
+				if err := s.Bind("k", &d); err == nil && d != 7 {
+					bad++
+				}
+			case "any":
+				var d any
+				if err := s.Bind("k", &d); err == nil && d == nil {
+					bad++
+				}
+			default:
+				var d tagged
+				if err := s.Bind("k", &d); err == nil && d.ID != 7 {
+					bad++
+				}
+			}
+		}
+	}()
+	close(stop)
+	wg.Wait()
+	if panicked {
+		bad++
+	}
+	return Event{"ev": "bindrace", "dest": dest, "iters": iters, "bad": bad}
 }
 
 func deepCopyCheck(a, b any) bool {
@@ -1010,7 +1083,7 @@ func runConfigScenarioOpt(kind string, steps []cfgStep, second bool) []Event {
 		case "wait":
 			return flyt.WithWait(time.Duration(s.Val) * time.Millisecond)
 		case "conc":
-			return flyt.WithBatchConcurrency(s.Val)
+			return flyt.WithBatchConcurrency(concVal(kind, s.Val))
 		default:
 			return flyt.WithBatchErrorHandling(s.Val == 0)
 		}
@@ -1082,7 +1155,7 @@ func runConfigScenarioOpt(kind string, steps []cfgStep, second bool) []Event {
 					case "wait":
 						b = b.WithWait(time.Duration(s.Val) * time.Millisecond)
 					case "conc":
-						b = b.WithBatchConcurrency(s.Val)
+						b = b.WithBatchConcurrency(concVal(kind, s.Val))
 					case "mode":
 						b = b.WithBatchErrorHandling(s.Val == 0)
 					case "prep":
@@ -1116,7 +1189,7 @@ func runConfigScenarioOpt(kind string, steps []cfgStep, second bool) []Event {
 			}
 			node = b
 			probe["retries"], probe["wait"] = retriesTok(b.GetMaxRetries()), int(b.GetWait()/time.Millisecond)
-			probe["conc"] = b.GetBatchConcurrency()
+			probe["conc"] = concTok(kind, b.GetBatchConcurrency())
 		} else {
 			if second {
 				_ = flyt.NewBatchNode(opts...)
@@ -1134,7 +1207,7 @@ func runConfigScenarioOpt(kind string, steps []cfgStep, second bool) []Event {
 					case "wait":
 						b = b.WithWait(time.Duration(s.Val) * time.Millisecond)
 					case "conc":
-						b = b.WithBatchConcurrency(s.Val)
+						b = b.WithBatchConcurrency(concVal(kind, s.Val))
 					case "mode":
 						b = b.WithBatchErrorHandling(s.Val == 0)
 					case "prep":
@@ -1152,7 +1225,7 @@ func runConfigScenarioOpt(kind string, steps []cfgStep, second bool) []Event {
 			}
 			node = b
 			probe["retries"], probe["wait"] = retriesTok(b.GetMaxRetries()), int(b.GetWait()/time.Millisecond)
-			probe["conc"] = b.GetBatchConcurrency()
+			probe["conc"] = concTok(kind, b.GetBatchConcurrency())
 		}
 		if base.GetBatchErrorHandling() == "stop" {
 			probe["mode"] = 1
@@ -1205,6 +1278,26 @@ func retriesVal(v int) int {
 		return bigRetries
 	}
 	return v
+}
+
+// the concurrency value 3 of the configuration table stands for a limit above a few thousand (function nodes only: the
+// setting is inert there, the getter shows it)
+func concVal(kind string, v int) int {
+	if kind == "node" && v == 3 {
+		return 5000
+	}
+	return v
+}
+func concTok(kind string, x int) int {
+	switch {
+	case kind != "node":
+		return x
+	case x == 5000:
+		return 3
+	case x < 0 || x > 2:
+		return 99
+	}
+	return x
 }
 func retriesTok(x int) int {
 	switch {
@@ -1386,6 +1479,11 @@ func init() {
 			id++
 			o.WriteScenario(id, "bind", "tlc-cells", map[string]any{"val": bv.name}, nil, evs)
 		}
+		// Bind against a key that another goroutine keeps setting and deleting
+		for _, dest := range []string{"int", "any", "struct"} {
+			id++
+			o.WriteScenario(id, "bind", "gen:race", map[string]any{"val": "race-" + dest}, nil, []Event{runBindRace(dest)})
+		}
 		// random nested values
 		r := rand.New(rand.NewSource(seed))
 		for i := 0; i < count; i++ {
@@ -1465,6 +1563,9 @@ func init() {
 					}
 				case "wait", "conc":
 					val = []int{0, 2}[r.Intn(2)]
+					if prm == "conc" && kind == "node" && r.Intn(5) == 0 {
+						val = 3 // a limit in the thousands
+					}
 				case "mode":
 					val = r.Intn(2)
 				default:
